@@ -26,7 +26,7 @@ import (
 
 var valChars = []string{"a", "b", "5", " ", "\t", "\n", "*", "?", "/", `\`, "'", ":", "(", ")", "[", "+", "-", "~", "^", "!", ",", "%", "_", ";", "é", "中", "😀", "\ufffd"}
 
-var c08Slots = []string{"eq", "cmp", "lo", "hi", "list", "bare", "baredf", "field"}
+var c08Slots = []string{"eq", "cmp", "lo", "hi", "lostar", "hinum", "list", "bare", "baredf", "field"}
 
 func init() {
 	enum.ByteAlphabets["val"] = valChars
@@ -131,6 +131,10 @@ func c08Leaf(slot string, v qast.Value) *qast.Node {
 		return qast.Lf(qast.Leaf{Kind: qast.LRange, Field: "f", Lo: v, Hi: z, Incl: true})
 	case "hi":
 		return qast.Lf(qast.Leaf{Kind: qast.LRange, Field: "f", Lo: z, Hi: v, Incl: true})
+	case "lostar": // the other bound open, resp. a quoted numeral: what the value is must not depend on its neighbour
+		return qast.Lf(qast.Leaf{Kind: qast.LRange, Field: "f", Lo: v, Hi: qast.Star, Incl: true})
+	case "hinum":
+		return qast.Lf(qast.Leaf{Kind: qast.LRange, Field: "f", Lo: qast.Q("10"), Hi: v, Incl: true})
 	case "list":
 		return qast.Lf(qast.Leaf{Kind: qast.LList, Field: "f", List: []qast.Value{z, v}})
 	case "bare":
